@@ -58,7 +58,7 @@ theorem toy_logged_or_inert (p : Nat → Bool) (app : Nat → Nat) (s : Toy) (i 
     · split
       · simp at *
       · split
-        · exact Or.inr ⟨_, _, rfl, rfl, by simp [Input.toEntry, Entry.height]; omega, by simp, by simp [walOf]⟩
+        · exact Or.inl ⟨rfl, rfl⟩
         · exact Or.inr ⟨_, _, rfl, rfl, by simp [Input.toEntry, Entry.height]; omega, by simp, toy_onMsg_wal _ _⟩
 end Juno.C13
 namespace Juno.C13
@@ -89,10 +89,19 @@ theorem toy_unstarted_silent (p : Nat → Bool) (app : Nat → Nat) (s : Toy) (i
 
 theorem toy_future_silent (p : Nat → Bool) (app : Nat → Nat) (s : Toy) (a : Entry)
     (h : s.height < a.height) (hns : a.toInput ≠ Input.start) :
-    visA (Toy.step p app s a.toInput).2 = [] := by
+    visA (Toy.step p app s a.toInput).2 = [] ∧
+      (Toy.step p app s a.toInput).1.started = s.started := by
   cases a <;> simp only [Entry.toInput, Entry.height] at * <;>
     simp only [Toy.step, Input.height?, Toy.onMsg] <;> (repeat' split) <;>
     simp_all [visA, visibleOf, effectsOf] <;> omega
+
+theorem toy_timeout_current (p : Nat → Bool) (app : Nat → Nat) (s : Toy) (i : Input) (e : Entry)
+    (rest : List Action) (h : (Toy.step p app s i).2 = Action.writeWAL e :: rest)
+    (ht : e.isTimeout = true) : e.height = s.height := by
+  revert h
+  cases i <;> simp only [Toy.step, Input.height?, Toy.onMsg] <;> (repeat' split) <;>
+    intro h <;> simp at h <;>
+    (try (obtain ⟨rfl, _⟩ := h)) <;> simp_all [Entry.isTimeout, Input.toEntry, Entry.height] <;> omega
 end Juno.C13
 namespace Juno.C13
 
@@ -147,6 +156,7 @@ theorem toy_replaySafe (p : Nat → Bool) (app : Nat → Nat) : ReplaySafe (toyM
   height_init := fun _ => rfl
   started_init := fun _ => rfl
   logged_or_inert := fun s i h => toy_logged_or_inert p app s i h
+  timeout_entry_current := fun s i e rest h ht => toy_timeout_current p app s i e rest h ht
   height_mono := fun s i => toy_height_mono p app s i
   commit_last := fun s i pre h v post heq => toy_commit_last p app s i pre h v post heq
   no_commit_height := fun s i h => toy_no_commit_height p app s i h
@@ -220,6 +230,7 @@ theorem idle_replaySafe : ReplaySafe idleMachine where
   height_init := fun _ => rfl
   started_init := fun _ => rfl
   logged_or_inert := fun _ _ _ => Or.inl ⟨rfl, rfl⟩
+  timeout_entry_current := by intro s i e rest h; simp [idleMachine] at h
   height_mono := fun _ _ => Nat.le_refl _
   commit_last := by
     intro s i pre h v post heq
@@ -228,7 +239,7 @@ theorem idle_replaySafe : ReplaySafe idleMachine where
   no_commit_height := fun _ _ _ => rfl
   votes_current_height := by intro s i v hv; simp [idleMachine, effectsOf, votesOf] at hv
   unstarted_silent := fun _ _ _ _ => ⟨rfl, rfl, rfl⟩
-  future_silent := fun _ _ _ _ => rfl
+  future_silent := fun _ _ _ _ => ⟨rfl, rfl⟩
   commute := by
     intro s a b _ _ _
     simp [idle_replayStep, visA, visibleOf, effectsOf]
@@ -238,7 +249,7 @@ theorem idle_replaySafe : ReplaySafe idleMachine where
     simp [committed] at hc
 
 theorem idle_noEquivocation : NoEquivocation idleMachine := by
-  intro h L v w hv
+  intro h L _ v w hv
   rw [idle_replayRun] at hv
   simp [votesOf] at hv
 
